@@ -1,5 +1,7 @@
 use crate::orch::Property;
 
+pub mod c04;
+pub mod c05;
 pub mod c08;
 pub mod c17;
 pub mod sweep;
@@ -9,6 +11,8 @@ pub fn lookup(id: &str) -> Box<dyn Property> {
         "C01" => Box::new(sweep::Sweep::new(sweep::Which::C01)),
         "C02" => Box::new(sweep::Sweep::new(sweep::Which::C02)),
         "C03" => Box::new(sweep::Sweep::new(sweep::Which::C03)),
+        "C04" => Box::new(c04::C04),
+        "C05" => Box::new(c05::C05),
         "C08" => Box::new(c08::C08),
         "C17" => Box::new(c17::C17),
         _ => panic!("unknown property {id}"),
